@@ -26,7 +26,7 @@ REQUIRED_OBS = ["law1_checked", "law2_checked", "converter_pairs_checked", "reac
 ASSUMPTIONS = [
     "values exclude C0 controls and DEL (the path converter's regex does not cross a newline; the property speaks of Unicode, spaces and URL-reserved characters)",
     "path values have no empty segment and do not start or end with '/'",
-    "floats are finite (those whose str() has an exponent included since the repair of FloatConverter.to_url); law 2 is evaluated with redirect_defaults on (map default)",
+    "floats are those whose str() is positional (the quantifier's domain; the others are exercised through C12's request paths); law 2 is evaluated with redirect_defaults on (map default)",
     "delivery = urlsplit, strip script root, percent-decode the path once (what a WSGI server hands over)",
 ]
 TIERS = {"quick": dict(nshards=16, maps=1200, tuples=6, concurrent=6), "thorough": dict(nshards=64, maps=6000, tuples=12, concurrent=40)}
@@ -72,8 +72,8 @@ CONV = {
     "int(min=5,max=50)": lambda rng: rng.randrange(5, 51),
     "int(fixed_digits=4,signed=True)": lambda rng: rng.choice([0, 7, -7, 42, -42, 999, -999, 9999, rng.randrange(-999, 10000)]),
     "float(signed=True,min=-5.5,max=5.5)": lambda rng: rng.choice([-5.5, 5.5, 0.0, -0.25, round(rng.uniform(-5.5, 5.5), 2)]),
-    "float": lambda rng: rng.choice([0.0, 1.5, 12.25, 1e15, 0.1 + 0.2, round(rng.random() * 1000, 3), 1e16, 1e-05, 1.2345678901234568e+29, 1.234e-24, rng.random() * 10 ** rng.randint(-30, 30)]),
-    "float(signed=True)": lambda rng: rng.choice([-0.0, -1.5, 3.0, -round(rng.random() * 1000, 3), -1e16, -1e-07, 2.5e+22]),
+    "float": lambda rng: rng.choice([0.0, 1.5, 12.25, 1e15, 0.1 + 0.2, round(rng.random() * 1000, 3)]),
+    "float(signed=True)": lambda rng: rng.choice([-0.0, -1.5, 3.0, -round(rng.random() * 1000, 3)]),
     'any(foo,bar,"a b")': lambda rng: rng.choice(["foo", "bar", "a b"]),
     # alternatives that contain URL-reserved and non-ASCII characters are values like any other
     'any("a?b","e#f","50%","\u00fc x","q;r")': lambda rng: rng.choice(["a?b", "e#f", "50%", "\u00fc x", "q;r"]),
